@@ -633,6 +633,37 @@ func runL5Conc(r *rng.R, threads, perThread int) (obs *l5ConcObs) {
 			}
 		}
 	}
+	// half of the additional DBs go away; the others, still held, keep what was prepared for
+	// them (a DB sharing a cache key with one that went would lose its statements)
+	for i := nD; i < len(all); i += 2 {
+		all[i].db = nil
+	}
+	collect(func() string {
+		n := 0
+		for _, d := range all[nD:] {
+			n += len(d.state.Events())
+		}
+		return fmt.Sprint(n)
+	})
+	for i := nD + 1; i < len(all); i += 2 {
+		func() {
+			defer func() {
+				if p := recover(); p != nil {
+					obs.ClosedErrs++
+					obs.Errors = append(obs.Errors, fmt.Sprint("a held DB, after DBs created at the same moment were collected: panic: ", p))
+				}
+			}()
+			ints, strs := l5Args(1)
+			if err := l5All(all[i].db.Query(context.Background(), stmts[0], ints, strs), noOut[stmts[0]]); err != nil && strings.Contains(err.Error(), "statement is closed") {
+				obs.ClosedErrs++
+				obs.Errors = append(obs.Errors, "a held DB, after DBs created at the same moment were collected: "+err.Error())
+			}
+			if all[i].state.OpenStmts() == 0 {
+				// its one statement was closed although the DB and the Statement are held
+				obs.ClosedErrs++
+			}
+		}()
+	}
 	dbs := all[:nD]
 	// two DB values over one sql.DB are two cache keys as well: what one of them prepared
 	// goes away with it, the other keeps working
@@ -664,6 +695,14 @@ func runL5Conc(r *rng.R, threads, perThread int) (obs *l5ConcObs) {
 		wg.Add(1)
 		go func(t int) {
 			defer wg.Done()
+			defer func() {
+				// a panic inside the library on one of the goroutines: reported, not fatal
+				if p := recover(); p != nil {
+					mu.Lock()
+					obs.Panic = fmt.Sprint(p)
+					mu.Unlock()
+				}
+			}()
 			tr := seeds[t]
 			var open *sqlair.Iterator
 			for i := 0; i < perThread; i++ {
@@ -974,7 +1013,6 @@ func runL5(args []string) {
 			caseJSON := map[string]any{"concurrent": map[string]any{"threads": threads, "perThread": per, "index": i}}
 			if obs.Panic != "" {
 				rep.addCrash(Finding{Case: caseJSON, Kind: "crash", Detail: "panic: " + obs.Panic})
-				continue
 			}
 			resp, err := cl.Call(map[string]any{"k": "rt", "sub": "l5c", "obs": obs})
 			if err != nil {
